@@ -396,14 +396,35 @@ def unmarshalIds : List Nat → List Seg
 
 def unmarshal (bs : List Nat) : Option (List Seg) := (words (bs.length + 1) bs).map unmarshalIds
 
-/-- `SerializedSegment.ToSegment` AS IT IS (DESIGN §5 F3): the loop reads `s.Edges[nodeIndex-1]` whenever
-`nodeIndex < len(s.Edges)`, i.e. already at `nodeIndex = 0` — an index-out-of-range panic (`none`) for every
-input that has an edge. Without edges the cursor never advances and keeps the last node. -/
-def toSegment (nodes edges : List Nat) : Option (List Seg) :=
+/-- `SerializedSegment.ToSegment` BEFORE hooks/C14-fix4.patch (DESIGN §5 F3): the loop read `s.Edges[nodeIndex-1]`
+whenever `nodeIndex < len(s.Edges)`, i.e. already at `nodeIndex = 0` — an index-out-of-range panic (`none`) for
+every input that has an edge. Without edges the cursor never advances and keeps the last node. -/
+def toSegmentOld (nodes edges : List Nat) : Option (List Seg) :=
   match nodes, edges with
   | [], _ => some [⟨0, 0⟩]
   | _ :: _, _ :: _ => none
   | n :: ns, [] => some [⟨(n :: ns).getLastD 0, 0⟩]
+
+/-- one iteration of the repaired loop, on the chain listed cursor-first:
+`cursor.Node = s.Nodes[i]; if i < len(s.Edges) { cursor = &Segment{Edge: s.Edges[i], Previous: cursor} }`.
+The index is in range under the guard, so there is no panic any more. -/
+def toSegStep (edges : List Nat) (chain : List Seg) (i n : Nat) : List Seg :=
+  match chain with
+  | [] => []                                        -- the chain always holds the cursor
+  | c :: rest =>
+    if i < edges.length then ⟨0, edges.getD i 0⟩ :: ⟨n, c.edge⟩ :: rest else ⟨n, c.edge⟩ :: rest
+
+def toSegLoop (edges : List Nat) : List Seg → Nat → List Nat → List Seg
+  | chain, _, [] => chain
+  | chain, i, n :: ns => toSegLoop edges (toSegStep edges chain i n) (i + 1) ns
+
+/-- `SerializedSegment.ToSegment` with hooks/C14-fix4.patch (`s.Edges[nodeIndex]`): `Nodes` and `Edges` are read
+root-first; the result is the chain terminal → root. Total: it never panics. -/
+def toSegment (nodes edges : List Nat) : List Seg := toSegLoop edges [⟨0, 0⟩] 0 nodes
+
+/-- the obvious serialisation of a chain (terminal → root): nodes root-first, edges root-first, the root's unused
+`Edge` field dropped. -/
+def serialize (seg : List Seg) : List Nat × List Nat := (seg.reverse.map (·.node), (seg.dropLast.map (·.edge)).reverse)
 
 /-! ### TSDFS / TSBFS / TSStatelessBFS (traversal.go) over `EachAdjacentEdge`
 
@@ -548,6 +569,29 @@ def HOp.binds : HOp → Option String
   | .fromStore h _ _ => some h
   | .derive h _ _ _ => some h
   | _ => none
+
+/-! ### factory entry points
+
+`BuildAdjacencyMapGraph(adj)` and `util.BuildGraph(constructor, adj)` both do, for every key of the Go map,
+`AddNode(src)` and then `AddNode(dst); AddEdge(src, dst)` for its out-list (empty and nil lists alike: the key is still a
+node). `FetchDirectedGraph` feeds every (start, end) row of the relationship query to `CSRDigraphBuilder.AddEdge`. -/
+
+/-- an adjacency description: the map's entries in the order they are visited (the result does not depend on it) -/
+abbrev Desc := List (Nat × List Nat)
+
+def descOps (desc : Desc) : List Op :=
+  desc.flatMap (fun kv => Op.node kv.1 :: kv.2.flatMap (fun dst => [Op.node dst, Op.edge 0 kv.1 dst]))
+
+/-- the rows `FetchDirectedGraph` scans: one `AddEdge` per selected relationship -/
+def fetchOps (sel : Edge → Bool) (edges : List Edge) : List Op :=
+  (edges.filter sel).map (fun e => Op.edge e.id e.start e.stop)
+
+/-- insertion sort keeping repetitions (the canonical order factory-built graphs are observed in) -/
+def sinsertD (x : Nat) : List Nat → List Nat
+  | [] => [x]
+  | y :: ys => if x ≤ y then x :: y :: ys else y :: sinsertD x ys
+
+def sortD (xs : List Nat) : List Nat := xs.foldl (fun acc x => sinsertD x acc) []
 
 /-! ### NumEdges / Degrees / Dimensions -/
 
